@@ -113,6 +113,10 @@ class ThrottleExecutor(CanCustomizeBind, Executor):
         self._to_submit = deque()
         self._lock = Lock()
         self._event = get_event()
+        # Set whenever room may have been made in the queue; only used to wake
+        # a submit() blocked in _block_until_ready (self._event is consumed
+        # by the submit thread, so it can't be relied upon for that).
+        self._room_event = get_event()
         self._running_count = AtomicInt()
         self._throttle = count if callable(count) else lambda: count
         self._last_throttle = self._throttle()
@@ -151,15 +155,19 @@ class ThrottleExecutor(CanCustomizeBind, Executor):
             metrics.EXEC_INPROGRESS.labels(type="throttle", executor=self._name).dec()
             self._delegate.shutdown(wait, **_kwargs)
             self._event.set()
+            self._room_event.set()
             if wait:
                 self._thread.join(MAX_TIMEOUT)
 
     def _block_until_ready(self, throttle_val):
         while self._block and not self._shutdown.is_shutdown:
+            # Clear before checking: if room is made after the check, the
+            # event is set again and the wait below returns at once.
+            self._room_event.clear()
             if throttle_val is None or len(self._to_submit) < throttle_val:
                 return
             self._log.debug("%s: throttling on submit", self._name)
-            self._event.wait(30.0)
+            self._room_event.wait(30.0)
 
     def _eval_throttle(self):
         try:
@@ -187,6 +195,7 @@ class ThrottleExecutor(CanCustomizeBind, Executor):
             for job in self._to_submit:
                 if job.future is future:
                     self._to_submit.remove(job)
+                    self._room_event.set()
                     self._log.debug("Cancelled %s", job)
                     return True
         self._log.debug("Could not find for cancel: %s", future)
@@ -226,6 +235,9 @@ def _submit_loop_iter(executor):
         executor._log.debug(
             "Submitting %s, throttling %s", len(to_submit), len(executor._to_submit)
         )
+
+    if to_submit:
+        executor._room_event.set()
 
     for job in to_submit:
         executor._do_submit(job)
